@@ -11,6 +11,7 @@ correspondence and the search for a failing input.
 import JPV.Peg.ParseModel
 import JPV.Peg.ExtDriver
 import JPV.Gen.PegGoRules
+import JPV.Peg.MemoHash
 import JPV.Dump
 import JPV.Registry
 open JPV JPV.Sexp JPV.Peg
@@ -41,7 +42,8 @@ def outcomeSexp : ParseOutcome → List Sexp
 def parseModelGo (env : Env) (ext : Ext) (cfg : Cfg) (s : String) : ParseOutcome :=
   let input := s.toList.toArray
   if !actionsAsExpected then .unmodelled else
-  match run Gen.goGrammar (fuelFor input.size) (ruleBody Gen.goGrammar "expression") input 0 with
+  -- memoised like the generated parser (C02_go_memo_transparent: the same Result as the plain interpreter)
+  match (runM (T := HashMemo) Gen.goGrammar (fuelFor input.size) (ruleBody Gen.goGrammar "expression") input 0 MState.init).1 with
   | .outOfFuel => .unmodelled
   | .fail => .unmodelled
   | .ok _ toks =>
